@@ -199,6 +199,10 @@ def check_var_ess(ctx):
             off = rng.choice([0.0, 1e3, 1e6, 1e8])
             xf = np.array([off + rng.gauss(0, 1) for _ in range(n)])
             wf = np.array([rng.choice([0.0, 1.0, 1.0, 2.0, 0.5, 3.0]) for _ in range(n)])
+            if off == 0.0 and rng.random() < .5:              # integer dtypes (counts) instead of floats
+                xf = np.array([rng.randint(-9, 9) for _ in range(n)], dtype=np.int64)
+                wf = np.array([rng.choice([0, 1, 1, 2, 3]) for _ in range(n)], dtype=np.int64)
+                ctx.count('var.int_dtype', True)
             xq, wq = [F(float(v)) for v in xf], [F(float(v)) for v in wf]
             Sq, S2q = sum(wq), sum(v * v for v in wq)
             if Sq != 0 and Sq - S2q / Sq != 0:
